@@ -330,6 +330,9 @@ class Exec:
         if opn == "input":
             src = self.inputs.get(s.rel)
             if src is None:
+                # the magic-set transformation loads a split copy (@split_in.R) from R's fact file: the directive names it
+                src = self.inputs.get(s.dirs.get("name", ""))
+            if src is None:
                 return   # no facts for this relation
             r = self.rel(s.rel)
             pad = (0,) * self.prog.rels[s.rel].aux
